@@ -229,30 +229,40 @@ def run(ctx):
         acc = accesses(P, f)
         pubs = [i for fi, kind, o, i in acc if names[fi] == pubfield and kind == "atomic-store"]
         # memcpy whose dest (ring_write) / src (ring_read) derives from the loaded `buffer` field
-        bufvals = set()
-        geps = field_geps(f)
-        for i in f.insts():
-            if i.op == "load" and G.parse_load(i) in geps and names[geps[G.parse_load(i)]] == "buffer":
-                bufvals.add(i.res)
-        ch = True
-        while ch:
-            ch = False
-            for i in f.insts():
-                if i.op in ("getelementptr", "bitcast") and i.res not in bufvals and i.ops and i.ops[0] in bufvals:
+        def copies_of(g, depth=0):
+            bufvals = set()
+            geps = field_geps(g)
+            for i in g.insts():
+                if i.op == "load" and G.parse_load(i) in geps and names[geps[G.parse_load(i)]] == "buffer":
                     bufvals.add(i.res)
-                    ch = True
-        copies = []
-        for i in f.calls():
-            if i.callee and (i.callee.startswith("llvm.memcpy") or i.callee in ("memcpy", "memmove") or i.callee.startswith("llvm.memmove")):
-                argi = 0 if fname == "ring_write" else 1
-                if len(i.args) > argi and i.args[argi] in bufvals:
-                    copies.append(i)
-        # byte-wise copies: stores/loads through the buffer
-        for i in f.insts():
-            if fname == "ring_write" and i.op == "store" and G.parse_store(i)[1] in bufvals:
-                copies.append(i)
-            if fname == "ring_read" and i.op == "load" and G.parse_load(i) in bufvals:
-                copies.append(i)
+            ch = True
+            while ch:
+                ch = False
+                for i in g.insts():
+                    if i.op in ("getelementptr", "bitcast") and i.res not in bufvals and i.ops and i.ops[0] in bufvals:
+                        bufvals.add(i.res)
+                        ch = True
+            out = []
+            for i in g.calls():
+                if i.callee and (i.callee.startswith("llvm.memcpy") or i.callee in ("memcpy", "memmove") or i.callee.startswith("llvm.memmove")):
+                    argi = 0 if fname == "ring_write" else 1
+                    if len(i.args) > argi and i.args[argi] in bufvals:
+                        out.append(i)
+                elif i.callee and not i.indirect and depth < 2 and i.callee in m.functions and m.functions[i.callee] is not g and m.functions[i.callee].blocks:
+                    # a helper of the unit that does the copying: the call stands for its copies, provided it publishes nothing itself
+                    h = m.functions[i.callee]
+                    if copies_of(h, depth + 1):
+                        hp = [x for fi, kind, o, x in accesses(P, h) if names[fi] in shared and kind in ("atomic-store", "atomic-rmw", "plain-store", "escape")]
+                        ctx.require(not hp, "%s: the helper %s copies %s the ring buffer and stores an index itself" % (fname, P.dm(i.callee), direction))
+                        out.append(i)
+            # byte-wise copies: stores/loads through the buffer
+            for i in g.insts():
+                if fname == "ring_write" and i.op == "store" and G.parse_store(i)[1] in bufvals:
+                    out.append(i)
+                if fname == "ring_read" and i.op == "load" and G.parse_load(i) in bufvals:
+                    out.append(i)
+            return out
+        copies = copies_of(f)
         if not pubs:
             # with a non-atomic / escaped index (already reported by R06.1) the publishing store cannot be identified
             r061_failed = any(o.rule == "R06.1" and not o.ok for o in ctx.obs)
